@@ -59,3 +59,70 @@ package literals
 //@   skip safety call-requires
 //@   ensures @produces-a-call: r0 != nil
 //@ end
+
+// ---- C05: encode at obfuscation time / decode in the emitted code ----
+
+//@ func evalOperator
+//@   property C05
+//@   intmode bv
+//@   spec ops.smt2
+//@   may_panic when t != token.XOR && t != token.ADD && t != token.SUB
+//@   ensures @computes-the-named-operator: r0 == spec.Eval(t, x, y)
+//@ end
+
+//@ func operatorToReversedBinaryExpr
+//@   property C05
+//@   intmode bv
+//@   spec ops.smt2
+//@   may_panic when t != token.XOR && t != token.ADD && t != token.SUB
+//@   ensures @emits-the-inverse-operator-on-the-same-operands: r0 != nil && r0.Op == spec.Rev(t) && r0.X == x && r0.Y == y
+//@ end
+
+//@ lemma reversed-operator-inverts
+//@   property C05
+//@   intmode bv
+//@   spec ops.smt2
+//@   smt (declare-const t (_ BitVec 64))
+//@   smt (declare-const x (_ BitVec 8))
+//@   smt (declare-const y (_ BitVec 8))
+//@   goal (=> (|spec.IsOp| t) (= (|spec.Eval| (|spec.Rev| t) (|spec.Eval| t x y) y) x))
+//@ end
+
+//@ func getIndexType
+//@   property C05
+//@   spec indextype.smt2
+//@   requires 0 <= dataLen
+//@   assigns nothing
+//@   ensures @every-index-fits-the-type: forall v int64 :: 0 <= v && v < dataLen ==> v <= spec.MaxOf(r0)
+//@ end
+
+//@ func generateSwapCount
+//@   property C05
+//@   requires 1 <= dataLen && dataLen <= 1048576
+//@   assigns nothing
+//@   ensures @even-and-covers-the-data: r0 % 2 == 0 && dataLen <= r0 && r0 <= dataLen + dataLen/2 + 1
+//@ end
+
+//@ func genRandIntSlice
+//@   property C05
+//@   requires max > 0 && count >= 0
+//@   assigns nothing
+//@   ensures @count-and-range: len(r0) == count && (forall k int :: 0 <= k && k < count ==> 0 <= r0[k] && r0[k] < max)
+//@   loop 0
+//@     invariant len(indexes) == count
+//@     invariant forall k int :: 0 <= k && k < i ==> 0 <= indexes[k] && indexes[k] < max
+//@ end
+
+//@ func randOperator
+//@   property C05
+//@   spec indextype.smt2
+//@   assigns nothing
+//@   ensures @one-of-the-invertible-operators: spec.IsOpI(r0)
+//@ end
+
+//@ func (*obfRand).pickObfuscator
+//@   property C05 C09
+//@   fact @init-Obfuscators: len(Obfuscators) > 0 && len(CheapObfuscators) > 0
+//@   may_panic when size < 8 || size > 2048
+//@   skip safety
+//@ end
